@@ -28,5 +28,7 @@ for d in sorted(os.listdir(base)):
     print(d, 'SILENT' if not alarms else 'ALARM')
     for pid, lines in alarms:
         for l in lines: print('      ', pid, l[:230])
-if not only:
-    json.dump(res, open(os.path.join(base, 'MATRIX.json'), 'w'), indent=1)
+mp = os.path.join(base, 'MATRIX.json')
+old = json.load(open(mp)) if os.path.exists(mp) and only else {}
+old.update(res)
+json.dump(old, open(mp, 'w'), indent=1, sort_keys=True)
